@@ -1820,6 +1820,15 @@ def run(ck):
         else:
             ck.bump("repo_seed_archives_ok")
 
+    # ---- codec sub-checks (own Lean modules, drivers and harnesses; each adds obligations, counts and violations) ----
+    import importlib
+    for sub in ("c08_inflate", "c08_bzip2"):
+        try:
+            mod = importlib.import_module(sub)
+        except ImportError:
+            continue
+        mod.run(ck)
+
     ck.cov["rule"] = ("case = (payload, container format, encoder options, companion members and their order) drawn from VERIF_SEED; "
                       "distinct by hash of the recipe; non-trivial = the file is really wrapped (format != bare). Payloads: corpus modules "
                       "that load identically by path and from memory + generated M.K. modules incl. the <100-byte-archive witness.")
